@@ -10,7 +10,7 @@ for sid, meta in SEEDS.items():
         continue
     os.makedirs(dst, exist_ok=True)
     for f in os.listdir(src):
-        if f in ('patch.diff', 'demo.c', 'demo.sh', 'RUN.txt', 'NOTES.md', 'VERIFY.txt', 'shim.c', 'preload.c') or (f.endswith('.c') or f.endswith('.sh') or f.endswith('.py')) and os.path.getsize(os.path.join(src, f)) < 200000:
+        if f in ('patch.diff', 'demo.c', 'demo.sh', 'RUN.txt', 'NOTES.md', 'VERIFY.txt', 'RETEST.txt', 'shim.c', 'preload.c') or (f.endswith('.c') or f.endswith('.sh') or f.endswith('.py')) and os.path.getsize(os.path.join(src, f)) < 200000:
             shutil.copy(os.path.join(src, f), os.path.join(dst, f))
     ver = ''
     vp = os.path.join(src, 'VERIFY.txt')
